@@ -14,6 +14,7 @@ Rules
       C01 on ECEFConverter::toECEF / toWGS84 (normal-line form, inverse consistency, output ranges, stopping tolerance, no 0/0 quotient)
       evaluated under this rule name on witness points of THIS property's quantifier (|latitude| <= 85 deg, height -500 .. 9000 m)
 Not decided: 1 mm agreement with toWGS84 and distance preservation to rounding (inherits C01's iteration and floating point)."""
+import os
 import sympy as sp
 from .. import sym, vec
 from ..tree import sx, walk, pp, short_fn, strip_casts
@@ -100,6 +101,91 @@ def run(fx, R, tier):
     check_skips(fx, R, fa, full[0], skip)
     check_protocol(fx, R, fa, fr)
     check_conversions(fx, R)
+    check_entry_values(fx, R, fr)
+
+
+def check_entry_values(fx, R, fr):
+    """E7: what an un-anchored converter hands to a conversion.  The constructor and reset() are the two ways into the un-anchored state; a
+    conversion path that has not established the anchored flag may still READ stored members (toENU(WGS84Coordinates) takes the altitude of
+    the stored anchor before the auto-anchor test).  Every member such a path reads must be a finite value after the constructor and after
+    reset(): a NaN / infinite / indeterminate one becomes the anchor of the auto-anchored frame."""
+    convs = [f for f in fx.functions.values() if f.get('cls') == 'romea::core::ENUConverter' and f['name'] in ('toENU', 'toECEF', 'toWGS84') and f.get('body') is not None]
+    reads = {}          # stored member path (tuple) -> (function, path description)
+    unread = []
+    for f in sorted(convs, key=lambda f: f['sig']):
+        R.used(f)
+        try:
+            ps = sym.Reader(fx, call_hook=geo.enu_hook).run(f)
+        except sym.Unsupported as u:
+            unread.append((f, str(u)))
+            continue
+        for st in ps:
+            established = any(isinstance(c[1], sp.Basic) and ((c[1] == sp.Symbol('this.isAnchored_') and c[2]) or (c[1] == sp.Not(sp.Symbol('this.isAnchored_')) and not c[2]) or
+                                                            (str(c[1]) == '~this.isAnchored_' and not c[2])) for c in st.cond)
+            asserted = any(x.get('k') == 'Call' and 'assert' in (x.get('fn') or '') for x in walk(f['body'])) or 'assert' in str(stmts_sx(f))
+            if established or (asserted and not any('isAnchored' in c[0] for c in st.cond)):
+                continue
+            whole = st.fields.get(('this', 'wgs84Anchor_'))
+            restored = whole is not None and str(whole) != 'this.wgs84Anchor_'
+            if restored and not isinstance(whole, sp.Basic):
+                import re as _re
+                whole = sp.Add(*[sp.Symbol(n_) for n_ in set(_re.findall(r'this\.(?:wgs84Anchor_|enu2ecef_)[\w.]*', str(whole)))])
+            if restored:
+                # the path re-writes the stored anchor as a whole: component symbols met afterwards denote the NEW anchor; what it read of the
+                # old one is what the new value (and the path conditions) are made of
+                vals = [c[1] for c in st.cond if isinstance(c[1], sp.Basic)] + [whole]
+            else:
+                vals = [c[1] for c in st.cond if isinstance(c[1], sp.Basic)] + ([st.ret] if isinstance(st.ret, sp.Basic) else []) + \
+                       [v for k_, v in st.fields.items() if isinstance(v, sp.Basic) and not (len(k_) >= 2 and v == sp.Symbol('.'.join(map(str, k_))))] + \
+                       [x_ for v in st.fields.values() if isinstance(v, sp.MatrixBase) for x_ in v]
+            for e_ in vals:
+                for s_ in e_.free_symbols:
+                    if s_.name.startswith('this.wgs84Anchor_') or s_.name.startswith('this.enu2ecef_'):
+                        desc = ' && '.join(('' if c[2] else '!') + '(' + c[0] + ')' for c in st.cond)
+                        reads.setdefault(tuple(s_.name.split('.')), (f, desc))
+                        if os.environ.get('VERIF_DEBUG'):
+                            print('E7 read', s_.name, short_sig(f), desc, str(e_)[:120])
+    inst = 'ENUConverter:un-anchored-entry-values'
+    for (f, why) in unread:
+        if 'WGS84Coordinates' in f['sig'] and f['name'] == 'toENU':
+            R.undecided('E7', inst + ':' + short_sig(f), 'not interpretable: %s' % why)
+    # the two ways into the un-anchored state
+    writers = []
+    try:
+        for st in sym.Reader(fx, call_hook=geo.enu_hook).run(fr):
+            writers.append(('reset()', {k: v for k, v in st.fields.items()}, fr))
+    except sym.Unsupported as u:
+        R.undecided('E7', inst + ':reset', str(u))
+    ctors = [f for f in fx.functions.values() if f.get('ctor') and f.get('cls') == 'romea::core::ENUConverter' and not f.get('copyctor') and not f['params']]
+    if len(ctors) == 1:
+        inits = {i.get('field'): i for i in ctors[0]['inits'] if i.get('field')}
+        writers.append(('the default constructor', {('this', k): ('init', v) for k, v in inits.items()}, ctors[0]))
+    bad = None
+    n_checked = 0
+    for path, (f, desc) in sorted(reads.items()):
+        for (wname, fields, wf) in writers:
+            n_checked += 1
+            if wname.startswith('the default'):
+                if ('this', path[1]) not in fields:
+                    bad = bad or (path, f, desc, wname, 'left uninitialised (no member initialiser)', wf)
+                continue
+            v = fields.get(path)
+            if v is None:
+                v = fields.get(path[:2])
+            if isinstance(v, sp.Basic) and (v.has(sp.nan) or v.has(sp.oo) or v.has(sp.zoo)):
+                bad = bad or (path, f, desc, wname, 'set to %s' % v, wf)
+    if bad:
+        path, f, desc, wname, what, wf = bad
+        R.violated('E7', inst, '%s leaves the converter un-anchored with %s %s, and %s reads that member on the path [%s] before (or without) establishing that the converter is anchored: '
+                   'the value goes into the anchor the converter gives itself, so the first converted point does not map to the origin and the frame is not a finite rigid motion' % (
+                       wname, '.'.join(path[1:]), what, short_sig(f), desc), fx.rel(wf['loc']), 'E-STATE')
+    else:
+        R.holds('E7', inst, '%d stored member(s) read on un-anchored paths (%s); finite after the constructor and after reset() (%d combinations)' % (
+            len(reads), ', '.join(sorted('.'.join(p[1:]) for p in reads)) or 'none', n_checked), fx.rel(fr['loc']), 'E-STATE')
+
+
+def short_sig(f):
+    return '%s(%s)' % (f['name'], ', '.join(p['t'].get('s', '?').replace('const ', '').replace('romea::core::', '').replace(' &', '') for p in f['params']))
 
 
 def vector_frame_hook(fwd):
